@@ -111,6 +111,10 @@ def run(chk: core.Check, tier: str, seed: int) -> None:
         except core.Unrepresentable:
             continue
         recs.append(record(jp, None if k % 2 else fresh, q, d, ed))
+    # documents that are strings containing JSON text, through every entry point (none of them decodes its argument)
+    for sdoc in gen.JSON_TEXT_STRINGS:
+        for q in ("$", "$[0]", "$.a", "$..*", "$[?@ > 0]", "$[*]"):
+            recs.append(record(jp, None if len(recs) % 2 else fresh, q, sdoc, core.enc_value(sdoc)))
     for q in INVALID:
         for nb in gen.neighbours(q, rng, 4):
             recs.append(record(jp, None, nb, [1], core.enc_value([1])))
